@@ -67,7 +67,7 @@ impl Manager for SimManager {
 
     fn detach(&self, obj: &mut SimObj) {
         let id = obj.id;
-        with_w(|w| w.on_detach(id));
+        try_with_w(|w| w.on_detach(id));
     }
 }
 
